@@ -10,6 +10,12 @@ space 2 (well-formed): documents of a recursive grammar of ordinary printable co
    line / several blocks whose lengths vary from one word to just below the 2500-character table bound), word
    uniqueness (all unique / one repeated fragment, so that structurally EQUAL siblings occur), preformatted blocks
    with captioned images.
+families (both spaces): EQUAL OFFENDERS - 2..25 structurally equal nodes (Node.__eq__ is structural: class, caption, children)
+   that are all forbidden under ONE ancestor, for every expressible pair of TreeCleaner.forbidden_parents (fix_nesting must
+   repair them in a number of steps linear in their count and must not multiply content); NUMERIC ATTRIBUTES - every numeric
+   attribute the cleaner / advtree / the writers' style helpers read x every way a number can be (mis)spelled in html
+   (float-ish, infinities, nan, exponents that overflow, hex, digit strings beyond CPython's int-conversion limit, Unicode
+   digits, signs, blanks), on every element kind that can carry it.
 space 3 (deep, C05 only): forbidden-nesting pairs and row-copying tables whose offending ancestor also holds a chain
    of 41..DEEP_MAX nested html tags (deep, but parseable: the parser and the passes need 1-2 interpreter frames per
    level, copy.deepcopy ~6) - passes then fail half-way with RecursionError and the tree must still be proper."""
@@ -425,6 +431,167 @@ def adversarial(rng):
         else:
             text = text[:i] + text[i:j][::-1] + text[j:]
     return text[:4000]
+
+
+
+# ------------------------------------------------------------------ family: numeric attributes x number spellings
+# every way a number can be (mis)spelled in an html attribute: what int() takes, what only float() takes (incl. the values
+# float() maps to infinities / nan), what neither takes, and what int() takes unexpectedly (underscores, Unicode digits)
+NUM_SPELLINGS = [
+    "0", "1", "2", "3", "10", "99", "100000", "-1", "-0", "+2", "007", " 2", "2 ", " 2 ", "\t2",
+    "2.0", "3.5", ".5", "5.", "-2.5", "1e3", "1E2", "1e-3", "2e0", "1e308", "1e309", "1e999", "9e400", "-1e999", "1e+999",
+    "inf", "-inf", "+inf", "Inf", "INF", "infinity", "Infinity", "-Infinity", "INFINITY", "nan", "NaN", "-nan", "+NAN",
+    "0x10", "0X1F", "0b11", "0o7", "1_0", "1__0", "_1", "1,5", "1 000", "1/2",
+    "²", "٣", "３", "௧", "१२", "Ⅳ", "½", "١e999", "٣.0", "-٣",
+    "", " ", "abc", "x", "2px", "50%", "100%", "1e", "e5", ".", "-", "+", "--1", "1-", "2;", "'2'", "2\"",
+    "9" * 20, "1" + "0" * 400, "9" * 4300, "9" * 4301, "-" + "9" * 4301, "1" + "0" * 5000,
+]
+# attributes with a numeric reading in html; those the anchored code reads by name are added at run time (set_read_attrs)
+NUM_ATTRS_STATIC = ["colspan", "rowspan", "width", "height", "start", "value", "border", "cellpadding", "cellspacing", "size",
+                    "span", "cols", "rows", "perrow", "widths", "heights", "border-spacing", "tabindex", "hspace", "vspace"]
+NUM_ATTRS = list(NUM_ATTRS_STATIC)
+READ_ATTRS = []          # literal keys the anchored sources read from attributes / vlist / style (filled by the check)
+SPAN_ATTRS = ["colspan", "rowspan"]
+
+
+def set_read_attrs(names):
+    """names: literal keys that the cleaner, advtree and the style helpers read from node.attributes / vlist / style in the
+    CURRENT source (found by vt.props.c05.read_attr_names).  Every one of them gets the full number-spelling sweep."""
+    del READ_ATTRS[:]
+    READ_ATTRS.extend(sorted(set(names)))
+    del NUM_ATTRS[:]
+    NUM_ATTRS.extend(NUM_ATTRS_STATIC + [n for n in READ_ATTRS if n not in NUM_ATTRS_STATIC])
+
+
+def quote(rng, v):
+    k = rng.random()
+    if "\"" in v or k < 0.15:
+        return "'%s'" % v if "'" not in v else '"%s"' % v.replace('"', "")
+    if k < 0.25 and v and not re.search(r"[\s'\"<>|=]", v):
+        return v
+    return '"%s"' % v
+
+
+def numattr(rng, name=None, val=None):
+    name = name or (rng.choice(SPAN_ATTRS) if rng.random() < 0.4 else rng.choice(NUM_ATTRS))
+    val = rng.choice(NUM_SPELLINGS) if val is None else val
+    if rng.random() < 0.1:
+        name = name.upper() if rng.random() < 0.5 else name.capitalize()
+    return "%s=%s" % (name, quote(rng, val))
+
+
+def numattrs(rng, p=0.7):
+    """an attribute string ('' or ' a=.. b=..') whose values are number spellings"""
+    if rng.random() > p:
+        return ""
+    a = [numattr(rng) for _ in range(rng.choice([1, 1, 1, 2, 3]))]
+    if rng.random() < 0.15:
+        a.append('style="%s:%s%s"' % (rng.choice(LENGTH_PROPS), rng.choice(NUM_SPELLINGS[:70]), rng.choice(UNITS)))
+    return " " + " ".join(a)
+
+
+# element kinds that can carry the attribute; {a} = attribute slot, {w} = a fresh word
+NUM_CONTEXTS = [
+    "{{|{a}\n|-{a}\n|{b} w1\n|{b} w2\n|-\n!{b} w3\n| w4\n|}}\n",
+    "{{|{a}\n|+{b} cap\n|-\n|{b} w1 ||{b} w2\n|-\n| w3 || w4\n|}}\n",
+    "<table{a}><tr{a}><td{a}>w1</td><th{a}>w2</th></tr><tr><td>w3</td><td{a}>w4</td></tr></table>\n",
+    "{{|\n|-\n|{b}\n{{|{a}\n|-\n|{b} w1\n|}}\n| w2\n|}}\n",                                   # nested table in a spanned cell
+    "{{|\n|-\n|{b} w1\n|-\n|{b} w2\n|}}\n",                                                # single-column table
+    "{{|\n|-\n|{b}\n* w1\n* w2\n* w3\n* w4\n* w5\n* w6\n|{b}\n* w7\n|}}\n",                    # split_table_lists
+    "<ol{a}><li{a}>w1</li><li{a}>w2</li></ol>\n<ul{a}><li{a}>w3</li></ul>\n",
+    "<div{a}>w1 <span{a}>w2</span></div>\n<center{a}>w3</center>\n<p{a}>w4</p>\n",
+    "<font{a}>w1</font> <hr{a}/> <br{a}/> <big{a}>w2</big> <pre{a}>w3</pre> <blockquote{a}>w4</blockquote>\n",
+    "<gallery{a}>\nFile:w1.jpg|w2\nFile:w3.jpg\n</gallery>\n",
+    "w1<ref{a}>w2</ref> w3<ref{a}/>\n\n<references{a}/>\n",
+    "<dl{a}><dt{a}>w1</dt><dd{a}>w2</dd></dl>\n<h2{a}>w3</h2>\nw4\n",
+    "<source{a}>w1</source>\n<poem{a}>w2</poem>\n<math{a}>w3</math>\n<timeline{a}>\nImageSize = width:100 height:100\n</timeline>\n",
+    "<caption{a}>w1</caption><tr{a}><td{a}>w2</td></tr><li{a}>w3</li>\n",                  # stray table / list parts
+]
+IMG_MODS = ["%spx", "x%spx", "%sx%spx", "upright=%s", "upright %s", "page=%s", "%s px", "thumb|%spx", "border|%spx|w2", "%s"]
+
+
+def numeric_doc(rng):
+    """one element context whose attribute slots carry numeric attributes with number spellings (or an image whose size
+    modifiers are number spellings)"""
+    if rng.random() < 0.12:
+        m = rng.choice(IMG_MODS)
+        vals = tuple(rng.choice(NUM_SPELLINGS) for _ in range(m.count("%s")))
+        return "w1 [[File:w0.%s|%s]] w3\n" % (rng.choice(["png", "jpg", "svg"]), m % vals)
+    ctx = rng.choice(NUM_CONTEXTS)
+    out = []
+    for piece in re.split(r"(\{a\}|\{b\})", ctx):
+        if piece == "{a}":
+            out.append(numattrs(rng, 0.5))
+        elif piece == "{b}":
+            t = numattrs(rng, 0.6)
+            out.append((t + " |") if t else "")
+        else:
+            out.append(piece.replace("{{", "{").replace("}}", "}"))
+    return "".join(out)
+
+
+def numeric_sweep():
+    """attribute x spelling, exhaustively, on the element the attribute belongs to: the span attributes and every attribute
+    the anchored code reads by name, on a table cell next to a spanned row (so that the colspan passes run) and on a div"""
+    docs = []
+    names = SPAN_ATTRS + [n for n in READ_ATTRS if n not in SPAN_ATTRS]
+    for n in names:
+        for v in NUM_SPELLINGS:
+            q = "'%s'" % v if '"' in v else '"%s"' % v
+            if n in SPAN_ATTRS or n in ("width", "height", "align", "valign", "bgcolor", "border", "summary"):
+                docs.append("{|\n|-\n| %s=%s | a\n| b\n|-\n| c || d\n|}\n" % (n, q))
+            else:
+                docs.append('<div %s=%s>a</div>\n{| %s=%s\n|-\n| b\n|}\n' % (n, q, n, q))
+    return docs
+
+
+# ------------------------------------------------------------------ family: structurally equal offenders under one forbidden ancestor
+# Node.__eq__ is structural (class, caption, children); an ImageLink's target is not part of it.  One entry per expressible
+# pair of TreeCleaner.forbidden_parents: (open, close, separator between offenders, offenders).  "%s" in an offender is
+# replaced by ONE word for all copies (equal) - or by a fresh word per copy (distinct) as the control group.
+EQ_IMG = ["[[File:%s.png]]", "[[Image:%s.jpg]]", "[[File:%s.png|thumb]]", "[[File:%s.png|%s]]"]
+EQ_CONTEXTS = [
+    (" ", "\n", " ", EQ_IMG + ["<center>%s</center>", "<blockquote>%s</blockquote>", "<ul><li>%s</li></ul>", "<source>%s</source>",
+                              "<p>%s</p>", "<gallery>\nFile:%s.jpg\n</gallery>"]),
+    ("<pre>", "</pre>\n", " ", EQ_IMG),
+    ("<code>", "</code>\n", " ", ["<pre>%s</pre>"]),
+    ("<code>x ", "</code>\n", "", ["<pre>%s</pre>"]),
+    ("\n: ", "\n", " ", ["<table><tr><td>%s</td></tr></table>", "<gallery>\nFile:%s.jpg\n</gallery>"]),
+    ("\n; ", "\n", " ", ["<table><tr><td>%s</td></tr></table>", "<gallery>\nFile:%s.jpg\n</gallery>"]),
+    ("\n; t : ", "\n", " ", ["<table><tr><td>%s</td></tr></table>"]),
+    ("<b>", "</b>\n", " ", ["<source>%s</source>"]),
+    ("<i><u>", "</u></i>\n", " ", ["<source>%s</source>"]),
+    ("<small><sup>", "</sup></small>\n", " ", ["<source>%s</source>"]),
+    ("<p>", "</p>\n", " ", ["<dl><dd>%s</dd></dl>", "<dl><dt>%s</dt></dl>"]),
+    ("", "\n", "\n", [": %s", "; %s", ": ''%s''"]),                                         # equal indented lines inside ONE paragraph
+]
+
+
+def equal_offenders(rng, W, n=None, wordy=False):
+    """n equal (85%) or pairwise distinct offenders, all forbidden under the same ancestor, optionally with text between
+    them.  wordy: every offender carries words (so that C07's word count sees a multiplied or lost copy)."""
+    op, cl, sep, offs = rng.choice(EQ_CONTEXTS)
+    off = rng.choice(offs)
+    if wordy and "%s" in off and off.startswith("[["):
+        off = "[[File:%s.png|%s]]"
+    if n is None:
+        n = rng.choice([2, 3, 4, 5, 6, 8, 9, 10, 12, 14, 16, 20, 25])
+    equal = rng.random() < 0.85
+    k = off.count("%s")
+    one = tuple(W() for _ in range(k))
+    between = rng.choice(["", "", "word", "fresh"]) if sep != "\n" else rng.choice(["word", "fresh"])
+    parts = []
+    if rng.random() < 0.6 or sep == "\n":
+        parts.append(W())
+    for i in range(n):
+        parts.append(off % (one if equal else tuple(W() for _ in range(k))))
+        if i < n - 1 or rng.random() < 0.5:
+            if between == "word":
+                parts.append("sep")
+            elif between == "fresh":
+                parts.append(W())
+    body = sep.join(parts) if sep else "".join(p if p.startswith("<") else " %s " % p for p in parts)
+    return op + body + cl
 
 
 # hand-written seeds that reach the individual passes (always run first)
